@@ -146,30 +146,32 @@ def check(run, F, tier):
         r1.violation("send_stored/" + pr, "send_stored: " + pr, conn.path_summary(p), site="%s:%s" % (f["file"], f["line"]))
     if not problems:
         r1.ok("send_stored", {"re_emitting_paths": n})
-    # vacancy
+    # vacancy: evaluated on concrete states (whatever its spelling: saturating_sub, match, guarded subtraction)
+    import explore as _ex
     vf = ms["get_receive_maximum_vacancy_for_send"]
-    clos = [g for g in F.fns.values() if g.get("kind") == "Closure" and g.get("parent") == vf["path"]]
-    okv = False
-    for g in clos:
-        for b in g["blocks"]:
-            t = b["term"]
-            if t["k"] == "call" and "fn" in t["func"].get("const", {}) and t["func"]["const"]["fn"]["name"] == "saturating_sub":
-                a1 = t["args"][1]
-                pl = a1.get("copy") or a1.get("move")
-                srcs = [pl] if pl else []
-                # one step of def-use: the operand is a temporary loaded from the field
-                for b2 in g["blocks"]:
-                    for st in b2["stmts"]:
-                        if pl and st["k"] == "assign" and st["lhs"] == {"l": pl["l"], "p": []} and st["rv"]["k"] == "use":
-                            q = st["rv"]["op"].get("copy") or st["rv"]["op"].get("move")
-                            if q:
-                                srcs.append(q)
-                if any(isinstance(el, dict) and el.get("n") == CNT for q in srcs for el in q["p"]):
-                    okv = True
-    if okv:
-        r3.ok("vacancy", "max.saturating_sub(publish_send_count)")
+    gf = conn.gc_fields(F)
+    OPTN = "std::option::Option"
+    badv = []
+    cases_v = [(None, 3, None), (5, 0, 5), (5, 3, 2), (5, 5, 0), (5, 7, 0), (0, 0, 0), (65535, 65535, 0), (65535, 1, 65534)]
+    for m_, c_, want_ in cases_v:
+        def setup_v(exx, st, fr, m_=m_, c_=c_):
+            st.heap[(("self",), (("f", gf["publish_send_max"]["i"], "publish_send_max"),))] = \
+                ("agg", OPTN, "None", ()) if m_ is None else ("agg", OPTN, "Some", (("c", m_, "u16"),))
+            st.heap[(("self",), (("f", gf[CNT]["i"], CNT),))] = ("c", c_, "u16")
+        exv = _ex.Explorer(F)
+        rets = [pv_.ret for pv_ in exv.run(vf["path"], setup=setup_v) if pv_.kind == "return"]
+        good = False
+        if len(rets) == 1 and rets[0][0] == "agg" and rets[0][1] == OPTN:
+            if want_ is None:
+                good = rets[0][2] == "None"
+            else:
+                good = rets[0][2] == "Some" and rets[0][3][0][0] == "c" and rets[0][3][0][1] == want_
+        if not good:
+            badv.append("max=%s count=%s -> %s (want %s)" % (m_, c_, [conn.short(r) for r in rets], want_))
+    if not badv:
+        r3.ok("vacancy", "max - count saturating at 0, None without Receive Maximum (%d concrete states)" % len(cases_v))
     else:
-        r3.violation("vacancy", "get_receive_maximum_vacancy_for_send is not max.saturating_sub(publish_send_count)")
+        r3.violation("vacancy", "get_receive_maximum_vacancy_for_send is not `max - count saturating at 0`: %s" % badv[:3])
 
     # ------------------------------------------------------------------ R2
     r2 = run.rule("C12-R2", "decrement exactly on exchange completion, guarded by Receive Maximum present and count > 0", floor=4)
